@@ -53,12 +53,29 @@ def syntactic(res):
                        stores == ["self.cont = cont", "self.end = end", "self.vertical = vertical"], str(stores))
 
 
+def repr_call_sites(res):
+    """`item[0] not in nameblacklist` in _repr is an exact-name test only over a list/tuple of names (over a string it is a substring
+    test): every __repr__ passes a list/tuple display of string constants, or nothing"""
+    for rel, cls in (("anytree/node/node.py", "Node"), ("anytree/node/anynode.py", "AnyNode"), ("anytree/node/symlinknode.py", "SymlinkNode")):
+        f = text_props.fn(res, rel, cls, "__repr__")
+        if not f:
+            continue
+        calls = [n for s_ in f.body for n in ast.walk(s_) if isinstance(n, ast.Call) and isinstance(n.func, ast.Name) and n.func.id == "_repr"]
+        ok = len(calls) == 1
+        for c in calls:
+            vals = [k.value for k in c.keywords if k.arg == "nameblacklist"] + list(c.args[2:3])
+            for v in vals:
+                ok = ok and isinstance(v, (ast.List, ast.Tuple)) and all(isinstance(e, ast.Constant) and isinstance(e.value, str) for e in v.elts)
+        text_props.syn(res, "C09", rel + ":%s.__repr__/hidden-names-are-a-list-of-names" % cls, ok)
+
+
 def collect(res):
     reg, specs = render.build()
     seq_props.collect_specs(res, specs)
     for name, hyps, goal in render.lemma_obligations():
         res.obligations.append(Obligation("spec-functions(render)/" + name, "LEMMA", hyps, goal, {"C09"}))
     syntactic(res)
+    repr_call_sites(res)
     for o in res.obligations:
         o.props = set(o.props) | {"C09"}
 
